@@ -63,6 +63,37 @@ fn usage() -> ! {
     std::process::exit(3);
 }
 
+/// With the `misalign` feature every allocation whose layout asks for at most 8-byte alignment is placed at an
+/// address that is 8 modulo 16. System allocators on 64-bit glibc always return 16-byte aligned blocks, so code that
+/// silently relies on that is never exercised there.
+#[cfg(feature = "misalign")]
+mod misalign {
+    use std::alloc::{GlobalAlloc, Layout, System};
+    pub struct Off8;
+    unsafe impl GlobalAlloc for Off8 {
+        unsafe fn alloc(&self, l: Layout) -> *mut u8 {
+            if l.align() > 8 {
+                return System.alloc(l);
+            }
+            let Ok(big) = Layout::from_size_align(l.size() + 16, 16) else { return std::ptr::null_mut() };
+            let p = System.alloc(big);
+            if p.is_null() {
+                p
+            } else {
+                p.add(8)
+            }
+        }
+        unsafe fn dealloc(&self, p: *mut u8, l: Layout) {
+            if l.align() > 8 {
+                return System.dealloc(p, l);
+            }
+            System.dealloc(p.sub(8), Layout::from_size_align_unchecked(l.size() + 16, 16));
+        }
+    }
+    #[global_allocator]
+    static A: Off8 = Off8;
+}
+
 pub static LOG_RECORDS: std::sync::atomic::AtomicU64 = std::sync::atomic::AtomicU64::new(0);
 struct CountingLogger;
 impl log::Log for CountingLogger {
@@ -135,6 +166,8 @@ fn main() {
     if let Some(level) = ctx.arg("log-level") {
         ev::observe("log_level_of_installed_logger", level);
     }
+    ev::observe("cpus_offered_to_this_process", std::thread::available_parallelism().map_or(0, |n| n.get()));
+    ev::observe("allocator", if cfg!(feature = "misalign") { "blocks aligned to 8 but never to 16 bytes" } else { "system" });
     let t0 = std::time::Instant::now();
 
     // a panic that escapes a monitor's own guards: a library (or hook) site is a violation of the property being
